@@ -487,6 +487,57 @@ func ruleCmd(c *Ctx) {
 			}
 		}
 
+		// (vii) one file per -p value: the name handed to ReadFile in iteration i is value i of the
+		// flag field (tagged short:"p") of the parsed options — not an element of a list derived
+		// from it (a filtered, expanded or de-duplicated list silently drops or repeats files)
+		for _, fn := range fns {
+			allInstrs(fn, func(i ssa.Instruction) {
+				call, ok := i.(*ssa.Call)
+				if !ok {
+					return
+				}
+				f := call.Call.StaticCallee()
+				if f == nil || (stdName(f) != "os.ReadFile" && stdName(f) != "io/ioutil.ReadFile") {
+					return
+				}
+				key := "(vii) the file read in iteration i is the i-th -p value itself"
+				bad := ""
+				v := call.Call.Args[0]
+				// through the accessor of the flag type
+				if c2, ok := v.(*ssa.Call); ok && len(c2.Call.Args) == 1 {
+					v = c2.Call.Args[0]
+				}
+				v = unwrapConv(v)
+				var ia *ssa.IndexAddr
+				switch x := v.(type) {
+				case *ssa.UnOp:
+					ia, _ = x.X.(*ssa.IndexAddr)
+				case *ssa.IndexAddr:
+					ia = x
+				}
+				if ia == nil {
+					bad = "the file name is " + describeValue(v) + ", not an element of the flag's value list"
+				} else {
+					h := loopHeaderOf(call.Block())
+					if h == nil || !isRangeIndex(h, ia.Index, ia.X) {
+						bad = "the file name is not the element at the index of a range over the whole list"
+					}
+					fieldTag := ""
+					if ld, ok := ia.X.(*ssa.UnOp); ok {
+						if fa, ok := ld.X.(*ssa.FieldAddr); ok {
+							if st, ok := derefPtr(fa.X.Type()).Underlying().(*types.Struct); ok {
+								fieldTag = st.Tag(fa.Field)
+							}
+						}
+					}
+					if bad == "" && !strings.Contains(fieldTag, `short:"p"`) {
+						bad = "the list the files are taken from is " + describeValue(ia.X) + ", not the -p field of the parsed options: a list computed from the flag values (pattern expansion, de-duplication, filtering) can drop a missing file without an error or apply a file a different number of times than it was given"
+					}
+				}
+				add(key, b.posOf(call), bad == "", "ReadFile(options.<-p field>[i]) for i over the whole field", bad)
+			})
+		}
+
 		// (iv) the file flag
 		if uf := b.method(b.Cmd, "FileFlag", "UnmarshalFlag"); uf != nil {
 			key := "(iv) FileFlag.UnmarshalFlag rejects a missing path and a directory"
